@@ -693,3 +693,105 @@ Section Mv.
     destruct (Hg r Hr) as [_ ->]. destruct (Hlen r Hr). apply Hf; assumption.
   Qed.
 End Mv.
+
+(* ------------------------------------------------------------------------------------------ *)
+(* broadcasting selects existing rows: for well-formed batched arrays the row picked for any row
+   of the broadcast batch exists, hence has the common row length *)
+Lemma zprod_cons x l : zprod (x :: l) = x * zprod l.
+Proof. reflexivity. Qed.
+Lemma zprod_app l a : zprod (l ++ [a]) = zprod l * a.
+Proof.
+  induction l as [|x l IH]; [change (a * 1 = 1 * a); ring|].
+  cbn [app]. rewrite !zprod_cons, IH. ring.
+Qed.
+Lemma zprod_rev l : zprod (rev l) = zprod l.
+Proof. induction l as [|x l IH]; [reflexivity|]. cbn [rev]. rewrite zprod_app, zprod_cons, IH. ring. Qed.
+Lemma zprod_pos l : Forall (fun d => 1 <= d) l -> 1 <= zprod l.
+Proof. induction 1 as [|x l Hx Hl IH]; [change (1 <= 1); lia|]. rewrite zprod_cons. nia. Qed.
+
+Lemma bcast_rev_pos a : forall b o,
+  bcast_rev a b = Some o -> Forall (fun d => 1 <= d) a -> Forall (fun d => 1 <= d) b -> Forall (fun d => 1 <= d) o.
+Proof.
+  induction a as [|x a IH]; intros [|y b] o E Ha Hb; cbn in E; try (injection E as <-; assumption).
+  destruct (bcast_rev a b) as [r|] eqn:Er; [|discriminate].
+  inversion Ha; inversion Hb; subst.
+  specialize (IH b r Er ltac:(assumption) ltac:(assumption)).
+  destruct (x =? y); [injection E as <-; constructor; assumption|].
+  destruct (x =? 1); [injection E as <-; constructor; assumption|].
+  destruct (y =? 1); [injection E as <-; constructor; assumption | discriminate].
+Qed.
+
+Lemma unravel_range o : forall r,
+  Forall (fun d => 1 <= d) o -> 0 <= r -> Forall2 (fun d i => 0 <= i < d) o (unravel_rev o r).
+Proof.
+  induction o as [|d o IH]; intros r Ho Hr; cbn; [constructor|].
+  inversion Ho; subst. constructor.
+  - apply Z.mod_pos_bound. lia.
+  - apply IH; [assumption | apply Z.div_pos; lia].
+Qed.
+
+Lemma ravel_bcast_range a : forall b o ri,
+  bcast_rev a b = Some o -> Forall (fun d => 1 <= d) a ->
+  Forall2 (fun d i => 0 <= i < d) o ri -> 0 <= ravel_bcast_rev a ri < zprod a.
+Proof.
+  induction a as [|x a IH]; intros b o ri E Ha Hri; [cbn; lia|].
+  inversion Ha as [|? ? Hx Ha']; subst.
+  assert (Hstep : forall i is_ d r' b', bcast_rev a b' = Some r' -> 0 <= i < d -> (x = 1 \/ d = x) ->
+            Forall2 (fun d i => 0 <= i < d) r' is_ ->
+            0 <= ravel_bcast_rev (x :: a) (i :: is_) < zprod (x :: a)).
+  { intros i is_ d r' b' Er Hi Hd Hr'. cbn [ravel_bcast_rev]. rewrite zprod_cons.
+    specialize (IH b' r' is_ Er Ha' Hr').
+    destruct (x =? 1) eqn:E1; nia. }
+  destruct b as [|y b]; cbn in E.
+  - injection E as <-. inversion Hri as [|d i o' is_ Hi Hr']; subst.
+    apply (Hstep i is_ x a []); auto. destruct a; reflexivity.
+  - destruct (bcast_rev a b) as [r'|] eqn:Er; [|discriminate].
+    destruct (x =? y) eqn:E1.
+    + injection E as <-. inversion Hri; subst. eapply Hstep; eauto.
+    + destruct (x =? 1) eqn:E2.
+      * injection E as <-. inversion Hri; subst. eapply Hstep; eauto. left; lia.
+      * destruct (y =? 1) eqn:E3; [|discriminate].
+        injection E as <-. inversion Hri; subst. eapply Hstep; eauto.
+Qed.
+
+Lemma bcast_rev_sym a : forall b, bcast_rev a b = bcast_rev b a.
+Proof.
+  induction a as [|x a IH]; intros [|y b]; cbn; try reflexivity.
+  rewrite IH. destruct (bcast_rev b a); [|reflexivity].
+  rewrite (Z.eqb_sym y x). destruct (x =? y) eqn:E; [apply Z.eqb_eq in E; subst; reflexivity|].
+  destruct (x =? 1) eqn:E1; destruct (y =? 1) eqn:E2; try reflexivity. exfalso; lia.
+Qed.
+
+Lemma bidx_range sx sb out r :
+  broadcast_shapes sx sb = Some out ->
+  Forall (fun d => 1 <= d) sx -> Forall (fun d => 1 <= d) sb -> 0 <= r ->
+  0 <= bidx out sx r < zprod sx /\ 0 <= bidx out sb r < zprod sb.
+Proof.
+  unfold broadcast_shapes, bidx. destruct (bcast_rev (rev sx) (rev sb)) as [o|] eqn:E; [|discriminate].
+  intros Ho Hx Hb Hr. injection Ho as <-. rewrite rev_involutive.
+  assert (Hx' : Forall (fun d => 1 <= d) (rev sx)) by (apply Forall_rev; assumption).
+  assert (Hb' : Forall (fun d => 1 <= d) (rev sb)) by (apply Forall_rev; assumption).
+  pose proof (unravel_range o r (bcast_rev_pos _ _ _ E Hx' Hb') Hr) as Hri.
+  rewrite <- (zprod_rev sx), <- (zprod_rev sb). split.
+  - eapply ravel_bcast_range; eassumption.
+  - rewrite bcast_rev_sym in E. eapply ravel_bcast_range; eassumption.
+Qed.
+
+(* a batched array all of whose rows have length n *)
+Definition wf_barr {K} (b : barr K) (n : Z) : Prop :=
+  Forall (fun d => 1 <= d) (bshape b) /\ Z.of_nat (List.length (brows b)) = zprod (bshape b) /\
+  Forall (fun a => alen a = n) (brows b).
+
+Lemma wf_brow {K} (k0 : K) (b : barr K) n i : wf_barr b n -> 0 <= i < zprod (bshape b) -> alen (brow K k0 b i) = n.
+Proof.
+  intros (_ & Hl & Hr) Hi. unfold brow. rewrite Forall_forall in Hr. apply Hr. apply nth_In. lia.
+Qed.
+
+Lemma wf_rows {K} (k0 : K) (x band : barr K) n Kb out r :
+  wf_barr x n -> wf_barr band Kb -> broadcast_shapes (bshape x) (bshape band) = Some out -> 0 <= r ->
+  alen (brow K k0 x (bidx out (bshape x) r)) = n /\ alen (brow K k0 band (bidx out (bshape band) r)) = Kb.
+Proof.
+  intros Hx Hb Ho Hr.
+  destruct (bidx_range _ _ _ r Ho ltac:(apply Hx) ltac:(apply Hb) Hr) as [H1 H2].
+  split; eapply wf_brow; eassumption.
+Qed.
